@@ -157,11 +157,27 @@ func (fr *frame) havocAll(st *State) {
 	fc.nfresh++
 	st.epoch = fc.nfresh
 	al := st.heap["Alloc"]
+	// private cells of the locals of this frame and of the frames it is inlined into keep their values
+	type kept struct {
+		name, ref, val string
+	}
+	var keep []kept
+	for f := fr; f != nil; f = f.parent {
+		for _, pc := range f.priv {
+			n := derefArrName(pc.elemT)
+			if a, ok := st.heap[n]; ok {
+				keep = append(keep, kept{n, pc.ref.S, sel(a.S, pc.ref.S)})
+			}
+		}
+	}
 	for k, v := range st.heap {
 		if strings.HasPrefix(k, "VIS$") || strings.HasPrefix(k, "SPOS$") {
 			continue
 		}
 		st.heap[k] = fc.fresh(k+"_h", v.Sort)
+	}
+	for _, kp := range keep {
+		fc.fact(eq(sel(st.heap[kp.name].S, kp.ref), kp.val))
 	}
 	if al.S != "" {
 		nw := st.heap["Alloc"]
